@@ -5,6 +5,8 @@ pub mod buildcheck;
 pub mod c01;
 pub mod c02;
 pub mod c06;
+pub mod c07;
+pub mod c08;
 pub mod c10;
 pub mod c14;
 pub mod c16;
@@ -24,6 +26,8 @@ pub fn meta(id: &str) -> Option<Meta> {
         "C01" => c01::meta(),
         "C02" => c02::meta(),
         "C06" => c06::meta(),
+        "C07" => c07::meta(),
+        "C08" => c08::meta(),
         "C10" => c10::meta(),
         "C14" => c14::meta(),
         "C15" => c15::meta(),
@@ -47,6 +51,8 @@ pub fn run_worker(id: &str, ctx: &Ctx, rep: &mut Report) {
         "C01" => c01::run(ctx, rep),
         "C02" => c02::run(ctx, rep),
         "C06" => c06::run(ctx, rep),
+        "C07" => c07::run(ctx, rep),
+        "C08" => c08::run(ctx, rep),
         "C10" => c10::run(ctx, rep),
         "C14" => c14::run(ctx, rep),
         "C15" => c15::run(ctx, rep),
